@@ -1294,8 +1294,85 @@ class Encoder:
         self.notes.append("hand-modelled ranged-integer conversion: %s" % m.group(8))
         return ("value", VAgg({0: self.cast(v.f[0], "i" + tgt[2:], "IntToInt")}, tag=tgt))
 
+    RI_OP = re.compile(r"^<(ri(?:8|16|32|64|128))<(-?\d+|i\d+::MIN), (-?\d+|i\d+::MAX)> as (?:\w+::)*(Add|Sub|Mul|Div|Rem|Neg|AddAssign|SubAssign|MulAssign|DivAssign|RemAssign)(?:<.*>)?>::(\w+)$")
+
+    def rangeint_op(self, state, func, args):
+        """operator traits on ranged integers (release semantics: wrapping add/sub/mul, euclidean div/rem)"""
+        m = self.RI_OP.match(func.strip())
+        if not m or self.debug_assertions:
+            return None
+        rty, trait = "i" + m.group(1)[2:], m.group(4)
+        ops = [self.operand(state, x) for x in args]
+        target = None
+        if trait.endswith("Assign"):
+            if not isinstance(ops[0], VRef):
+                return None
+            target = ops[0]
+            ops[0] = self.read_path(state, target.local, list(target.proj))
+
+        def val_of(v):
+            if isinstance(v, VAgg) and len(v.f) == 1 and isinstance(v.f.get(0), VInt):
+                return VInt(v.f[0].t, rty, v.f[0].lo, v.f[0].hi) if v.f[0].ty != rty else v.f[0]
+            return None
+
+        vs = [val_of(v) for v in ops]
+        if any(v is None for v in vs):
+            return None
+        self.notes.append("hand-modelled ranged-integer operator: %s::%s" % (m.group(1), trait))
+        base = trait.replace("Assign", "")
+        if base == "Neg":
+            r = self.unop("Neg", vs[0])
+        elif base in ("Add", "Sub", "Mul"):
+            r = self.binop(base, vs[0], vs[1])
+        else:
+            cb = self.as_const(vs[1].t)
+            if cb is None or cb <= 0:
+                raise Refuse("ranged %s by non-constant or non-positive divisor" % base)
+            q, rr, qlo, qhi = self.floor_divmod_const(vs[0].t, vs[0].lo, vs[0].hi, cb)
+            r = VInt(q, rty, qlo, qhi) if base == "Div" else VInt(rr, rty, 0, cb - 1)
+        res = VAgg({0: r}, tag=m.group(1))
+        if target is not None:
+            self.write(state, Place(target.local, target.proj), res)
+            return ("value", VAgg({}))
+        return ("value", res)
+
+    RI_CMP = re.compile(r"^<(?:ri(?:8|16|32|64|128)<[^>]*>|(?:\w+::)*Constant) as (?:\w+::)*(PartialEq|PartialOrd|Ord)(?:<.*>)?>::(eq|ne|lt|le|gt|ge|cmp|partial_cmp)$")
+
+    def rangeint_cmp(self, state, func, args):
+        m = self.RI_CMP.match(func.strip())
+        if not m or self.debug_assertions or len(args) != 2:
+            return None
+        vs = []
+        for x in args:
+            v = self.operand(state, x)
+            if isinstance(v, VBoxVal):
+                v = v.val
+            if isinstance(v, VRef):
+                v = self.read_path(state, v.local, list(v.proj))
+            if isinstance(v, VAgg) and len(v.f) == 1 and isinstance(v.f.get(0), VInt):
+                vs.append(v.f[0])
+            else:
+                return None
+        self.notes.append("hand-modelled ranged-integer comparison")
+        a, b = vs[0].t, vs[1].t
+        op = m.group(2)
+        if op in ("cmp", "partial_cmp"):
+            d = self.name_ite(z3.If(a < b, z3.IntVal(-1), z3.If(a == b, z3.IntVal(0), z3.IntVal(1))), "cmp")
+            o = VEnum(d, {}, "Ordering", STD_ENUMS["Ordering"])
+            if op == "cmp":
+                return ("value", o)
+            return ("value", VEnum(z3.IntVal(1), {"Some": {0: o}}, "Option", STD_ENUMS["Option"]))
+        t = {"eq": a == b, "ne": a != b, "lt": a < b, "le": a <= b, "gt": a > b, "ge": a >= b}[op]
+        return ("value", VBool(t))
+
     def rangeint_model(self, state, func, args):
         r = self.rangeint_conv(state, func, args)
+        if r is not None:
+            return r
+        r = self.rangeint_op(state, func, args)
+        if r is not None:
+            return r
+        r = self.rangeint_cmp(state, func, args)
         if r is not None:
             return r
         """hand-written semantics (release build, no debug assertions) of the few generic ranged-integer
@@ -1319,6 +1396,18 @@ class Encoder:
             # so the payload is the wrapped machine value, not "the value assuming the check passed"
             return VAgg({0: self.wrap(t, l, h, rty)}, tag=m.group(1))
 
+        if meth in ("try_new", "try_new128", "new", "new_const") and len(args) in (1, 2):
+            v = self.operand(state, args[-1])
+            if isinstance(v, VAgg) and len(v.f) == 1 and isinstance(v.f.get(0), VInt):
+                v = v.f[0]
+            if not isinstance(v, VInt):
+                return None
+            self.notes.append("hand-modelled ranged-integer call: %s::%s" % (m.group(1), meth))
+            ok = self.name_bool(z3.And(v.t >= lo, v.t <= hi), "riok")
+            payload = VAgg({0: self.wrap(v.t, v.lo, v.hi, rty)}, tag=m.group(1))
+            if meth.startswith("try_"):
+                return ("value", VEnum(z3.If(ok, z3.IntVal(0), z3.IntVal(1)), {"Ok": {0: payload}, "Err": {0: VOpaque("error")}}, "Result", STD_ENUMS["Result"]))
+            return ("value", VEnum(z3.If(ok, z3.IntVal(1), z3.IntVal(0)), {"Some": {0: payload}, "None": {}}, "Option", STD_ENUMS["Option"]))
         if meth == "N" and m.group(5) is not None and re.fullmatch(r"-?\d+", m.group(5).strip()):
             k = int(m.group(5))
             return ("value", VAgg({0: self.const_int(k, rty)}, tag=m.group(1)))
